@@ -20,7 +20,10 @@ Inductive item :=
 | IOut (f : bstr)                         (* output file: second positional argument / "outputFile" *)
 | IEmpty                                  (* --empty / "empty": "" *)
 | IReplace                                (* --replace-input / "replaceInput": "" *)
-| IGlobal (l : list (aentry * bstr)).     (* --global <options of the global table> -- / "global": { ... } *)
+| IGlobal (l : list (aentry * bstr))      (* --global <options of the global table> -- / "global": { ... } *)
+| IEncrypt (u o bits : bstr) (l : list (aentry * bstr)).
+                                          (* --encrypt user owner bits <options of that key length's table> -- /
+                                             "encrypt": {"userPassword": user, "ownerPassword": owner, "<bits>bit": { ... }} *)
 
 (* ---- third column: the Config call an option stands for; None = the value is not acceptable for this option *)
 Definition opt_denote (e : aentry) (v : bstr) : option cfg_call :=
@@ -59,6 +62,11 @@ Fixpoint denote_subs (l : list (aentry * bstr)) : list cfg_call * bool :=
                    end
   end.
 
+(* key lengths: the argv option table and the JSON key of each *)
+Definition enc_table (bits : bstr) : bstr := bits ++ B"-bit-encryption".
+Definition enc_key (bits : bstr) : bstr := bits ++ B"bit".
+Definition valid_bits (bits : bstr) : bool := bstr_eqb bits B"40" || bstr_eqb bits B"128" || bstr_eqb bits B"256".
+
 Definition denote_item (it : item) : list cfg_call * bool :=
   match it with
   | IOpt e v => match opt_denote e v with Some c => ([c], true) | None => ([], false) end
@@ -69,6 +77,8 @@ Definition denote_item (it : item) : list cfg_call * bool :=
   | IReplace => ([CCall B"c_main" B"replaceInput" []], true)
   | IGlobal l => let (cs, ok) := denote_subs l in
                  (CCall B"c_main" B"global" [] :: cs ++ (if ok then [CCall B"c_global" B"endGlobal" []] else []), ok)
+  | IEncrypt u o bits l => let (cs, ok) := denote_subs l in
+                 (CCall B"c_main" B"encrypt" [bits; u; o] :: cs ++ (if ok then [CCall B"c_enc" B"endEncrypt" []] else []), ok)
   end.
 
 Fixpoint denote_items (j : list item) : list cfg_call * bool :=
@@ -100,6 +110,7 @@ Definition argv_of_item (it : item) : list bstr :=
   | IEmpty => [B"--empty"]
   | IReplace => [B"--replace-input"]
   | IGlobal l => B"--global" :: map (fun p => word_of (fst p) (snd p)) l ++ [B"--"]
+  | IEncrypt u o bits l => B"--encrypt" :: u :: o :: bits :: map (fun p => word_of (fst p) (snd p)) l ++ [B"--"]
   end.
 Definition render_argv (j : list item) : list bstr := flat_map argv_of_item j.
 
@@ -113,6 +124,10 @@ Definition json_of_item (it : item) : bstr * jjv :=
   | IEmpty => (B"empty", JJStr [])
   | IReplace => (B"replaceInput", JJStr [])
   | IGlobal l => (B"global", JJObj (map (fun p => (camel (ae_flag (fst p)), JJStr (snd p))) l))
+  | IEncrypt u o bits l =>
+      (* members in key order: "128bit" / "256bit" / "40bit" < "ownerPassword" < "userPassword" *)
+      (B"encrypt", JJObj [(enc_key bits, JJObj (map (fun p => (camel (ae_flag (fst p)), JJStr (snd p))) l));
+                          (B"ownerPassword", JJStr o); (B"userPassword", JJStr u)])
   end.
 Definition render_json (j : list item) : jjv := JJObj (map json_of_item j).
 
@@ -163,6 +178,10 @@ Definition wf_item (tbl : list aentry) (it : item) : Prop :=
   | IOpt e v => In e tbl /\ main_scalar e = true
   | IArr e vs => In e tbl /\ main_array e = true
   | IGlobal l => Forall (fun p => In (fst p) tbl /\ sub_opt B"global" (fst p) = true) l
+  | IEncrypt u o bits l =>
+      valid_bits bits = true /\ positional_word u = true /\ positional_word o = true /\
+      (* the two 40-bit options whose JSON choice lists diverge on the pinned tree (tables_equivalent_refuted) are excluded *)
+      Forall (fun p => In (fst p) tbl /\ sub_opt (enc_table bits) (fst p) = true /\ divergent (fst p) = false) l
   | _ => True
   end.
 
